@@ -8,6 +8,7 @@ import (
 	"sort"
 	"strings"
 	"time"
+	"unicode/utf8"
 
 	"github.com/rkosegi/yaml-toolkit/props"
 )
@@ -18,13 +19,19 @@ import (
 // configured prefix, suffix and separator" includes every combination of LENGTHS: the set has
 // triples with |separator| = |suffix| (1/1, 2/2), |separator| > |suffix| (2/1) and
 // |separator| < |suffix| (1/2), and with |prefix| = / != |suffix|.
+// It also includes delimiters that SHARE characters without overlapping (no delimiter occurs inside
+// another one, no proper tail of one delimiter is a head of another one, see c11TripleOK): prefix and
+// suffix with the same leading character (%{ %}), all three delimiters with the same first and last
+// character (<q> </q> <:>), and delimiters outside ASCII (« » ¦ and “ ” |: in UTF-8 the paired
+// quotes share their leading byte(s), the implementation works on bytes).
 var c11Triples = [][3]string{{"${", "}", ":"}, {"#{", "}", "|"}, {"<<", ">>", "::"}, {"%(", ")", "?"},
-	{"${", "}", ":-"}, {"{{", "}}", "|"}, {"[[", "]]", "=>"}, {"@", "))", "~"}}
+	{"${", "}", ":-"}, {"{{", "}}", "|"}, {"[[", "]]", "=>"}, {"@", "))", "~"},
+	{"%{", "%}", ":"}, {"«", "»", "¦"}, {"<q>", "</q>", "<:>"}, {"“", "”", "|"}}
 
 // length bound of the exhaustive token stream per triple (quick / thorough)
 var (
-	c11MaxLenQuick    = []int{7, 6, 6, 6, 5, 5, 5, 5}
-	c11MaxLenThorough = []int{9, 8, 7, 7, 7, 7, 6, 6}
+	c11MaxLenQuick    = []int{7, 6, 6, 6, 5, 5, 5, 5, 5, 5, 4, 4}
+	c11MaxLenThorough = []int{9, 8, 7, 7, 7, 7, 6, 6, 6, 6, 6, 6}
 )
 
 type c11Out struct {
@@ -102,13 +109,13 @@ const (
 
 func init() {
 	register(&Prop{ID: "C11", Run: c11Run,
-		Rule: "for each delimiter triple of {${ } :, #{ } |, << >> ::, %( ) ?, ${ } :-, {{ }} |, [[ ]] =>, @ )) ~} (separator shorter than, as long as and longer than the suffix; prefix shorter than, as long as and longer than the suffix): (tok) ALL token strings over {prefix,suffix,separator,a,b} up to a length bound against 7 fixed tables (plain, chain, self cycle, mutual cycle, separator-injecting values, unterminated values, key containing the separator); (gram) templates from the grammar text | prefix key-template [sep default-template] suffix (nesting depth <= 4, repetition, unknown keys, unterminated tails, stray suffix/separator) against random tables whose values are templates incl. self and mutual references; one generator in three draws key names that differ by case or blanks only (a / A / ' a' / 'a ' / 'a b') and one in three adds table keys that LOOK LIKE templates (a key text holding a complete placeholder, db.${env}.url), the same texts being used as key parts of placeholders; (fn) the same templates, half of them a placeholder with a nested key part, against lookup FUNCTIONS that are total — the table first, then for every other key the empty string (os.Getenv-style), the decimal length of the key, or its letters and digits in upper case — held against the reference only (the model takes a table); (raw) random strings over the delimiter CHARACTERS, lexed by the model; (concat) pairs of delimiter-balanced templates; (hist) HISTORIES: 2-3 resolvers alive at once, built from separate props.Builder() calls with pairwise different triples and their own tables (half of the histories contain a resolver whose triple shares delimiters with the documented default ${ } : and leaves those options unset on the builder), used interleaved with a preference for resolvers built EARLIER than the latest builder call, on grammar templates of their own syntax (sometimes followed by a placeholder in a sibling's syntax); every use is compared with the reference and the model for that resolver's OWN triple and table and with a resolver built alone. One in four gram/raw/concat cases additionally has a sibling resolver with another triple, built and used before the resolver under test is built, between its build and its use, or interleaved with its uses. A batch case is non-trivial when at least one input has a complete placeholder; a history when a resolver is used on an input with a complete placeholder after a later builder call or while relying on builder defaults next to a sibling; distinct = distinct canonical case JSON.",
+		Rule: "for each delimiter triple of {${ } :, #{ } |, << >> ::, %( ) ?, ${ } :-, {{ }} |, [[ ]] =>, @ )) ~, %{ %} :, « » ¦, <q> </q> <:>, “ ” |} (separator shorter than, as long as and longer than the suffix; prefix shorter than, as long as and longer than the suffix; delimiters that share no character, that share their leading / trailing character without overlapping, and delimiters outside ASCII whose UTF-8 encodings share their leading bytes): (tok) ALL token strings over {prefix,suffix,separator,a,b} up to a length bound against 7 fixed tables (plain, chain, self cycle, mutual cycle, separator-injecting values, unterminated values, key containing the separator); (gram) templates from the grammar text | prefix key-template [sep default-template] suffix (nesting depth <= 4, repetition, unknown keys, unterminated tails, stray suffix/separator) against random tables whose values are templates incl. self and mutual references; one generator in three draws key names that differ by case or blanks only (a / A / ' a' / 'a ' / 'a b') one in three adds table keys that LOOK LIKE templates (a key text holding a complete placeholder, db.${env}.url), one in three adds property names that CONTAIN the separator (jdbc:url), the same texts being used as key parts of placeholders, and one in three draws plain text from a wide alphabet as well (backslash, quotes, slash, %, $, #, ^, &, !, ~, path fragments C:\\, characters outside ASCII — whatever is not a character of the triple's own delimiters), in inputs and in table values; (fn) the same templates, half of them a placeholder with a nested key part, against lookup FUNCTIONS that are total — the table first, then for every other key the empty string (os.Getenv-style), the decimal length of the key, or its letters and digits in upper case — held against the reference only (the model takes a table); (raw) random strings over the delimiter CHARACTERS, lexed by the model; (concat) pairs of delimiter-balanced templates; (hist) HISTORIES: 2-3 resolvers alive at once, built from separate props.Builder() calls with pairwise different triples and their own tables (half of the histories contain a resolver whose triple shares delimiters with the documented default ${ } : and leaves those options unset on the builder), used interleaved with a preference for resolvers built EARLIER than the latest builder call, on grammar templates of their own syntax (sometimes followed by a placeholder in a sibling's syntax); every use is compared with the reference and the model for that resolver's OWN triple and table and with a resolver built alone. (live) ONE resolver reused while its lookup source CHANGES: a resolver built once over a Go map (props.MapLookup reads the map on every lookup) resolves a small pool of inputs again and again (4-10 steps) while keys of a small pool — ordinary names, names containing the separator, names that look like templates — are added, changed and removed in place between the uses; every use is compared with the reference, the model and a resolver built at that moment, all for the table as it is at that use. One in four gram/raw/concat cases additionally has a sibling resolver with another triple, built and used before the resolver under test is built, between its build and its use, or interleaved with its uses. A batch case is non-trivial when at least one input has a complete placeholder; a history when a resolver is used on an input with a complete placeholder after a later builder call or while relying on builder defaults next to a sibling; a live case when an input with a complete placeholder is resolved after an edit of the table; distinct = distinct canonical case JSON.",
 		Assumptions: []string{
-			"delimiter triples are the eight fixed non-overlapping ones (no character shared by two delimiters of a triple); strings are ASCII",
+			"delimiter triples are the twelve fixed non-overlapping ones (no delimiter occurs inside another one and no proper tail of one delimiter is a head of another one; eight of them share no character at all); strings are valid UTF-8 (the model lexes characters, the implementation bytes: the same thing on valid UTF-8)",
 			"the model works on token lists (greedy left-to-right lexing for the triple; the resolved placeholder text is re-lexed before lookup); byte-level = token-level matching is validated by the raw stream (random strings and table values over the delimiter CHARACTERS, incl. partial delimiters), not proved",
 			"the concatenation clause is evaluated for pairs whose concatenation lexes to the concatenation of the lexings (no delimiter forms across the junction)",
 			"termination is observed as: at most 10000 lookups per Resolve call and a 20 s wall-clock backstop per batch",
-			"lookup tables are Go maps given through props.MapLookup (unique keys; any string is a key, incl. texts with delimiters in them); lookup functions are the table followed by a total fallback whose values are free of delimiter characters, and are evaluated with direct predicates only",
+			"lookup tables are Go maps given through props.MapLookup (unique keys; any string is a key, incl. texts with delimiters in them; in the live stream the map is edited in place between Resolve calls of one resolver, never during one); lookup functions are the table followed by a total fallback whose values are free of delimiter characters, and are evaluated with direct predicates only",
 			"independence of resolvers built from separate props.Builder() calls is probed by histories of at most 3 resolvers and 9 uses; a history case first builds (and uses) one resolver with all four options set explicitly to the documented defaults, so its outcome depends on its own history only and the recorded case replays in a fresh process"}})
 	evals["C11"] = c11Eval
 	shrinkers["C11"] = c11Shrink
@@ -221,16 +228,27 @@ func c11SetOK(d [3]string, set string) bool {
 	return true
 }
 
-// c11TripleOK: all delimiters non-empty, no character shared by two of them (the property's
-// "non-overlapping triples"; guards hand-written / shrunk cases).
+// c11TripleOK: the property's "non-overlapping triples" (guards hand-written / shrunk cases): all
+// delimiters non-empty valid UTF-8, pairwise different, no delimiter occurs inside another one and no
+// proper tail of one delimiter is a head of ANOTHER one — so an occurrence of a delimiter in a string
+// never straddles an occurrence of another one and scanning bytes left to right is the same as
+// scanning tokens.  (Delimiters may share characters: "%{" / "%}".)
 func c11TripleOK(d [3]string) bool {
 	for i := range d {
-		if d[i] == "" {
+		if d[i] == "" || !utf8.ValidString(d[i]) {
 			return false
 		}
 		for j := range d {
-			if i != j && strings.ContainsAny(d[i], d[j]) {
+			if i == j {
+				continue
+			}
+			if strings.Contains(d[i], d[j]) {
 				return false
+			}
+			for k := 1; k < len(d[i]); k++ {
+				if strings.HasPrefix(d[j], d[i][k:]) {
+					return false
+				}
 			}
 		}
 	}
@@ -274,7 +292,7 @@ func c11TblMap(t [][2]string) map[string]string {
 
 type c11Tok struct {
 	k byte // 'P' prefix, 'S' suffix, 'V' separator, 'c' character
-	c byte
+	c rune
 }
 
 func c11Lex(d [3]string, s string) []c11Tok {
@@ -291,8 +309,9 @@ func c11Lex(d [3]string, s string) []c11Tok {
 			out = append(out, c11Tok{k: 'V'})
 			i += len(d[2])
 		default:
-			out = append(out, c11Tok{k: 'c', c: s[i]})
-			i++
+			ch, sz := utf8.DecodeRuneInString(s[i:])
+			out = append(out, c11Tok{k: 'c', c: ch})
+			i += sz
 		}
 	}
 	return out
@@ -335,12 +354,12 @@ func c11HasPh(t []c11Tok) bool {
 func c11Hazard(d [3]string, t []c11Tok) bool {
 	multi := ""
 	for _, x := range d {
-		if len(x) > 1 {
+		if utf8.RuneCountInString(x) > 1 {
 			multi += x
 		}
 	}
 	for _, x := range t {
-		if x.k == 'c' && strings.IndexByte(multi, x.c) >= 0 {
+		if x.k == 'c' && strings.ContainsRune(multi, x.c) {
 			return true
 		}
 	}
@@ -456,8 +475,26 @@ func c11NewGen(r *rand.Rand, d [3]string) *c11Gen {
 			g.tkeys = append(g.tkeys, k)
 		}
 	}
+	if r.Intn(3) == 0 {
+		// "text outside placeholders is never altered" holds for ANY text: punctuation, quoting and escape-like characters,
+		// path fragments, characters outside ASCII (those that are not characters of the triple's own delimiters)
+		for _, t := range c11WideText {
+			if !strings.ContainsAny(t, d[0]+d[1]+d[2]) {
+				g.txt = append(g.txt, t)
+			}
+		}
+	}
+	if r.Intn(3) == 0 {
+		// property names that CONTAIN the separator ("jdbc:url"): the same text is a key of the table (or not: see table)
+		// and the body of a placeholder (name + separator + default)
+		for i, n := 0, 1+r.Intn(2); i < n; i++ {
+			g.tkeys = append(g.tkeys, pick(r, append([]string{"u"}, g.keys...))+d[2]+pick(r, []string{"x", "b", "1", "", "u"}))
+		}
+	}
 	return g
 }
+
+var c11WideText = []string{"\\", "/", "'", "\"", "`", "^", "&", "!", "%", "$", "#", "*", "~", "C:\\", "\\\\", "é", "€", "\\n", "a\\", "?", "(", "]"}
 
 func (g *c11Gen) text() string {
 	s := pick(g.r, g.txt)
@@ -531,25 +568,34 @@ func (g *c11Gen) input() string {
 	return s
 }
 
+// a table value: a template, a plain word (sometimes followed by one more piece of text), a repetition, an
+// unterminated placeholder, or empty
+func (g *c11Gen) value() string {
+	var v string
+	switch x := g.r.Intn(10); {
+	case x < 4:
+		v = g.tmpl(1 + g.r.Intn(2))
+	case x < 7:
+		v = pick(g.r, []string{"a", "b", "c", "x", "1", "ab", "v w"})
+		if g.r.Intn(4) == 0 {
+			v += g.text()
+		}
+	case x == 7:
+		v = g.ph(1) + g.ph(1) // repetition inside a value
+	case x == 8:
+		v = g.d[0] + pick(g.r, g.keys) // unterminated value
+	default:
+		v = ""
+	}
+	return v
+}
+
 func (g *c11Gen) table() [][2]string {
 	m := map[string]string{}
 	n := 2 + g.r.Intn(5)
 	for i := 0; i < n; i++ {
 		k := pick(g.r, g.keys)
-		var v string
-		switch x := g.r.Intn(10); {
-		case x < 4:
-			v = g.tmpl(1 + g.r.Intn(2))
-		case x < 7:
-			v = pick(g.r, []string{"a", "b", "c", "x", "1", "ab", "v w"})
-		case x == 7:
-			v = g.ph(1) + g.ph(1) // repetition inside a value
-		case x == 8:
-			v = g.d[0] + pick(g.r, g.keys) // unterminated value
-		default:
-			v = ""
-		}
-		m[k] = v
+		m[k] = g.value()
 	}
 	for _, k := range g.tkeys {
 		if g.r.Intn(3) > 0 {
@@ -564,22 +610,24 @@ func (g *c11Gen) table() [][2]string {
 }
 
 func c11RawString(r *rand.Rand, alpha string, max int) string {
+	al := []rune(alpha)
 	n := r.Intn(max + 1)
-	b := make([]byte, n)
+	b := make([]rune, n)
 	for i := range b {
-		b[i] = alpha[r.Intn(len(alpha))]
+		b[i] = al[r.Intn(len(al))]
 	}
 	return string(b)
 }
 
+// the CHARACTERS of the delimiters, and a, b
 func c11RawAlpha(d [3]string) string {
-	seen := map[byte]bool{}
-	out := []byte{}
+	seen := map[rune]bool{}
+	out := []rune{}
 	for _, s := range []string{d[0], d[1], d[2], "ab"} {
-		for i := 0; i < len(s); i++ {
-			if !seen[s[i]] {
-				seen[s[i]] = true
-				out = append(out, s[i])
+		for _, ch := range s {
+			if !seen[ch] {
+				seen[ch] = true
+				out = append(out, ch)
 			}
 		}
 	}
@@ -763,6 +811,8 @@ func c11Run(c *Ctx) {
 		c.Tick()
 		c.Do("hist", c11GenHist(r))
 	}
+	// (live) one resolver reused while its lookup source changes
+	c11RunLive(c)
 	// (raw) random strings over the delimiter characters
 	for i := 0; i < c.N(2500); i++ {
 		c.Tick()
@@ -797,12 +847,12 @@ func c11Run(c *Ctx) {
 	for i := 0; i < c.N(600); i++ {
 		c.Tick()
 		d := c11Triples[i%len(c11Triples)]
-		dl := pick(r, d[:])
+		dl := []rune(pick(r, d[:]))
 		k := len(dl)
 		if k > 1 {
 			k = 1 + r.Intn(k-1)
 		}
-		h1, h2 := dl[:k], dl[k:]
+		h1, h2 := string(dl[:k]), string(dl[k:])
 		m := map[string]string{"a": h1}
 		if h2 != "" && r.Intn(2) == 0 {
 			m["b"] = h2
@@ -895,6 +945,12 @@ func c11Eval(c *Ctx, kind string, raw []byte) {
 			panic(err)
 		}
 		c11EvalHist(c, h)
+	case "live":
+		var l c11Live
+		if err := json.Unmarshal(raw, &l); err != nil {
+			panic(err)
+		}
+		c11EvalLive(c, l)
 	}
 }
 
@@ -1326,8 +1382,8 @@ func c11EvalHist(c *Ctx, h c11Hist) {
 
 func c11DropChars(s string) []string {
 	var out []string
-	for i := 0; i < len(s); i++ {
-		out = append(out, s[:i]+s[i+1:])
+	for i, ch := range s {
+		out = append(out, s[:i]+s[i+utf8.RuneLen(ch):])
 	}
 	return out
 }
@@ -1369,6 +1425,8 @@ func c11Shrink(kind string, raw []byte) [][]byte {
 		}
 	}
 	switch kind {
+	case "live":
+		c11ShrinkLive(raw, emit, tblVariants)
 	case "hist":
 		var h c11Hist
 		if json.Unmarshal(raw, &h) != nil {
